@@ -394,7 +394,14 @@ func c01Trial(c *vlib.Ctx, root string, idx int, crashes []c01Crash) {
 	r := vlib.Derive(c.Seed, "C01", idx)
 	dir := filepath.Join(root, fmt.Sprintf("t%d", idx))
 	defer os.RemoveAll(dir)
-	p, err := l3.New(dir, c01Config)
+	cfgText := c01Config
+	if idx%2 == 1 {
+		// a pruner that runs every second with limits far beyond the trial's
+		// lifetime: nothing acknowledged here may ever be pruned
+		cfgText += "queue_retention { max_age 1h\n prune_interval 1s }\ndlq_retention { max_age 1h\n max_depth 100000 }\n"
+		c.Distinct("nontrivial", "config:retention_1h_prune_1s")
+	}
+	p, err := l3.New(dir, cfgText)
 	if err != nil {
 		c.Inconclusive("C01: " + err.Error())
 		return
